@@ -307,6 +307,35 @@ int32 parseClientHelloExtensions(ssl_t *ssl, unsigned char **cp, unsigned short 
         }
     }
 
+# ifdef USE_STATELESS_SESSION_TICKETS
+    /* RFC 7627, 5.3: if the original session did not use extended_master_secret
+       but this ClientHello offers it, the server MUST NOT do the abbreviated
+       handshake and continues with a full one.  The cache path enforces this
+       in matrixResumeSession; an accepted ticket has to be dropped here, after
+       all extensions were seen (their order is the client's choice).
+       matrixUnlockSessionTicket left the ticket's flag in
+       require_extended_master_secret. */
+    if ((ssl->flags & SSL_FLAGS_RESUMED) && ssl->sid &&
+        ssl->sid->sessionTicketState == SESS_TICKET_STATE_USING_TICKET &&
+        ssl->extFlags.require_extended_master_secret == 0 &&
+        ssl->extFlags.extended_master_secret == 1)
+    {
+        psTraceInfo("Ticket without extended master secret offered with it\n");
+        ssl->flags &= ~SSL_FLAGS_RESUMED;
+        Memset(ssl->sec.masterSecret, 0x0, SSL_HS_MASTER_SIZE);
+        Memset(ssl->sid->masterSecret, 0x0, SSL_HS_MASTER_SIZE);
+        ssl->sid->cipherId = 0;
+        ssl->cipher = sslGetCipherSpec(ssl, SSL_NULL_WITH_NULL_NULL);
+        if (ssl->sessionIdLen > 0)
+        {
+            Memset(ssl->sessionId, 0, SSL_MAX_SESSION_ID_SIZE);
+            ssl->sessionIdLen = 0;
+        }
+        /* We hold the key that opened the ticket: issue a fresh one */
+        ssl->sid->sessionTicketState = SESS_TICKET_STATE_RECVD_EXT;
+    }
+# endif /* USE_STATELESS_SESSION_TICKETS */
+
     /* Handle the extensions that were missing or not what we wanted */
     if (ssl->extFlags.require_extended_master_secret == 1 &&
         ssl->extFlags.extended_master_secret == 0)
